@@ -148,6 +148,28 @@ def run(ck: Check):
                 ck.violation(f"[symbol sets={sets}] {len(data)}-byte region: " + (line if t is None else (err or "dump differs"))[:300],
                              {"atom": "symbol", "size": len(data), "cut_before": None if sets[0] is None else sets[0].hex(),
                               "cut_after": None if sets[1] is None else sets[1].hex()})
+    # the atoms of a loaded testcase stay what they are when ranges are deleted (a caller may mark parts protected):
+    # no two of them are ever fused into one part
+    from splitx import make
+    for atom, data, sets in (("line", b"k1\nk2\r\nx\ny\nz\n", (None, None)), ("char", b"KLxyz", (None, None)),
+                             ("symbol", b"1;3;x;y;z;", (None, None)), ("symbol", b"k,k2,x,y,z,", (b"", b","))):
+        line, t, out = impl_load(atom, data, sets[0], sets[1])
+        before_parts = list(t.parts)
+        for prot in ((0, 1), (0, 2), (1, 3)):
+            for lo, hi in ((0, 1), (0, 2), (0, 3), (1, 3), (0, 99)):
+                c = t.copy()
+                c.reducible = [i not in prot for i in range(len(c.parts))]
+                try:
+                    c.rmslice(lo, hi)
+                    got = list(c.parts)
+                except Exception as e:  # pylint: disable=broad-except
+                    got = ["<raised %s>" % type(e).__name__]
+                ck.count("atoms-after-rmslice")
+                ck.nontrivial(("atoms-after-rmslice", atom, prot, lo, hi))
+                if any(p not in before_parts for p in got):
+                    ck.violation(f"[{atom}] after rmslice({lo}, {hi}) with parts {prot} protected the testcase holds parts that are "
+                                 f"not atoms of the split: {[p for p in got if p not in before_parts]!r} (atoms: {before_parts!r})",
+                                 {"atom": atom, "data": data.hex(), "protected": list(prot), "lo": lo, "hi": hi})
     cli(ck, r)
     collapse_keeps_sets(ck)
     sets_changed_between_loads(ck)
